@@ -465,7 +465,7 @@ func (p *vfIdP) ServeHTTP(rw http.ResponseWriter, r *http.Request) {
 	case "/token":
 		call.Endpoint = "token:" + map[string]string{"authorization_code": "code", "refresh_token": "refresh"}[form.Get("grant_type")]
 		call.Verifier = form.Get("code_verifier") // recorded for every token request, also one that is answered with a fault
-	case "/userinfo":
+	case "/userinfo", "/oauth/userinfo": // (the second is where the GitLab flavour looks)
 		call.Endpoint = "userinfo"
 	case "/plain/token":
 		call.Endpoint = "plain:token"
@@ -833,6 +833,7 @@ func (p *vfIdP) userinfo(rw http.ResponseWriter, call *vfIdpCall) {
 	}
 	if u.PreferredUsername != "" {
 		c["preferred_username"] = u.PreferredUsername
+		c["nickname"] = u.PreferredUsername
 	}
 	if p.Userinfo != nil {
 		p.Userinfo(call, c)
